@@ -31,7 +31,9 @@ RULE = ('case = a block of taxonomy shapes (thorough: all 470 unordered '
         '(<=6 levels, <=40 leaves), each built four ways (dict, per-cell '
         'label columns / h5ad, from_str(to_str()), from_precomputed_stats), '
         'queried, flattened, every level dropped, compositions, and every '
-        'one-edit malformed variant.  Non-trivial = tree with >=2 leaves; '
+        'one-edit malformed variant; each tree is followed in the same process '
+        'by a regrouped twin (same names, one level re-parented) and both are '
+        're-queried.  Non-trivial = tree with >=2 leaves; '
         'distinct = distinct (shape signature) values')
 ASSUMPTIONS = [
     'the generator model defines the intended tree; node names are shuffled '
